@@ -409,7 +409,7 @@ Section Shape.
       + (* flat *) subst sh. assert (j = 0) as -> by lia. split; [reflexivity|].
         unfold form_layout, lay_list, src_pos. simpl grid_orderF. simpl grid_ds. destruct o.
         * rewrite permF_nth by (constructor; [lia|assumption]). f_equal. simpl. lia.
-        * f_equal. simpl. lia.
+        * f_equal; simpl; lia.
       + (* stacked *) destruct Hf as [Hk ->]. split; reflexivity.
   Qed.
 
@@ -427,3 +427,370 @@ Section Shape.
       + simpl. lia.
   Qed.
 End Shape.
+
+Section Units.
+  Open Scope Q_scope.
+
+  Definition unit_ok (u : uspec) : Prop := ~ u_fac u == 0.
+  (** units that [equivalent_units] identifies have the same zero point (true of every pair of
+      the registry; for an abstract pair with different offsets relabelling would not be exact) *)
+  Definition relabel_safe (u v : uspec) : Prop := equivalent u v = true -> u_off u == u_off v.
+
+  Lemma convert_compose u v w x : unit_ok v -> unit_ok w ->
+    convert v w (convert u v x) == convert u w x.
+  Proof. unfold convert, unit_ok. intros Hv Hw. field. split; assumption. Qed.
+
+  Lemma convert_self u x : unit_ok u -> convert u u x == x.
+  Proof. unfold convert, unit_ok. intros Hu. field. assumption. Qed.
+
+  Lemma equivalent_id u v x : unit_ok v -> relabel_safe u v -> equivalent u v = true -> convert u v x == x.
+  Proof.
+    intros Hv Hs He. specialize (Hs He). unfold equivalent in He. apply andb_prop in He. destruct He as [_ He].
+    apply Qeq_bool_iff in He. unfold convert in *. unfold unit_ok in Hv.
+    rewrite Hs in He. rewrite Hs.
+    assert (u_fac u == u_fac v) as Hf.
+    { transitivity (((1 * u_fac u + u_off v - u_off v) / u_fac v) * u_fac v); [field; assumption|].
+      rewrite He. ring. }
+    rewrite Hf. field. assumption.
+  Qed.
+
+  Lemma list_eqb_Z_eq (a b : list Z) : list_eqb Z.eqb a b = true <-> a = b.
+  Proof.
+    revert b; induction a as [|x a IH]; intros [|y b]; simpl; split; try discriminate; try reflexivity.
+    - intros H. apply andb_prop in H. destruct H as [H1 H2]. apply Z.eqb_eq in H1. apply IH in H2. congruence.
+    - intros [= -> ->]. rewrite Z.eqb_refl. simpl. apply IH. reflexivity.
+  Qed.
+
+  Lemma compatible_trans u v w : compatible u v = true -> compatible v w = true -> compatible u w = true.
+  Proof. unfold compatible. rewrite !list_eqb_Z_eq. congruence. Qed.
+
+  Lemma equivalent_compatible u v : equivalent u v = true -> compatible u v = true.
+  Proof. unfold equivalent. intros H. apply andb_prop in H. tauto. Qed.
+
+  (** the units and the value under which a publication is stored by [prepare], and the value
+      [Input._convert_and_check] makes of it *)
+  Definition producer_units (uo : uspec) (pu : option uspec) : uspec := match pu with Some u => u | None => uo end.
+  Definition stored_units (uo : uspec) (pu : option uspec) : uspec :=
+    match pu with Some u => if equivalent u uo then u else uo | None => uo end.
+  Definition stored_val (uo : uspec) (pu : option uspec) (x : Q) : Q :=
+    match pu with Some u => if equivalent u uo then x else convert u uo x | None => x end.
+  Definition delivered_val (ue ui : uspec) (y : Q) : Q := if equivalent ue ui then y else convert ue ui y.
+
+  (** relabelling and the two conversions compose to the one affine map producer -> consumer *)
+  Lemma link_conv uo ui pu x :
+    unit_ok uo -> unit_ok ui ->
+    relabel_safe (producer_units uo pu) ui -> relabel_safe uo ui ->
+    delivered_val (stored_units uo pu) ui (stored_val uo pu x) == convert (producer_units uo pu) ui x.
+  Proof.
+    intros Ho Hi Hs1 Hs2. unfold delivered_val, stored_units, stored_val, producer_units in *.
+    destruct pu as [u|].
+    - destruct (equivalent u uo) eqn:E1.
+      + destruct (equivalent u ui) eqn:E2; [|reflexivity].
+        symmetry. apply equivalent_id; assumption.
+      + destruct (equivalent uo ui) eqn:E2.
+        * rewrite <- (convert_compose u uo ui x Ho Hi). symmetry. apply equivalent_id; assumption.
+        * apply convert_compose; assumption.
+    - destruct (equivalent uo ui) eqn:E2; [|reflexivity]. symmetry. apply equivalent_id; assumption.
+  Qed.
+End Units.
+
+Section Payload.
+  Open Scope nat_scope.
+
+  Definition wf_arr (a : arr) : Prop :=
+    length (a_data a) = prod (a_shape a)
+    /\ match a_mask a with Some m => length m = prod (a_shape a) | None => True end.
+
+  (** an explicit mask in the metadata has one bit per cell of the grid *)
+  Definition wf_mask (inf : info) (c : list nat) : Prop :=
+    match i_mask inf with MBits bits => length bits = prod c | _ => True end.
+
+  Definition units_ok (inf : info) (p : payload) : Prop :=
+    match p_units p with Some u => compatible u (i_units inf) = true | None => True end.
+
+  (** the mask demanded for entry [j], cell [idx]: the payload's own bit if it is a masked array,
+      otherwise the bit of the metadata's mask at that cell, none if no mask is demanded *)
+  Definition demanded_mask (inf : info) (a : arr) (f : form) (j : nat) (idx : list nat) : option bool :=
+    let g := i_grid inf in
+    match a_mask a with
+    | Some m => Some (nth (src_pos g f (a_shape a) j idx) m false)
+    | None => match i_mask inf with
+              | MBits bits => Some (nth (flatC (cell g (a_shape a) f) idx) bits false)
+              | _ => None
+              end
+    end.
+
+  Lemma flatF_lt sh : forall idx, in_range idx sh -> flatF sh idx < prod sh.
+  Proof.
+    induction sh as [|d r IH]; intros idx H; inversion H as [|i d' ir r' Hi Hr]; subst; simpl; [lia|].
+    specialize (IH _ Hr). nia.
+  Qed.
+
+  Lemma prod_form g sh f : has_form g sh f -> prod sh = form_k f * prod (cell g sh f).
+  Proof.
+    destruct g as [dsh|ds o]; destruct f; simpl; try contradiction.
+    - lia.
+    - intros [c [-> _]]. simpl. lia.
+    - intros ->. lia.
+    - intros ->. simpl. lia.
+    - intros ->. simpl. lia.
+    - intros [_ ->]. simpl. lia.
+  Qed.
+
+  Lemma src_pos_lt g sh f j idx :
+    wf_grid g -> has_form g sh f -> j < form_k f -> in_range idx (cell g sh f) ->
+    src_pos g f sh j idx < prod sh.
+  Proof.
+    intros Hwf Hf Hj Hi. destruct g as [dsh|ds o]; destruct f; simpl in Hf; try contradiction; simpl in Hi, Hj; unfold src_pos.
+    - apply flatC_lt. assumption.
+    - destruct Hf as [c [-> _]]. simpl in Hi. apply flatC_lt. constructor; assumption.
+    - subst sh. apply flatC_lt. assumption.
+    - subst sh. apply flatC_lt. constructor; assumption.
+    - subst sh. simpl grid_orderF. simpl grid_ds. simpl prod. rewrite Nat.mul_1_r.
+      destruct o; [apply flatF_lt|apply flatC_lt]; assumption.
+    - destruct Hf as [_ ->]. apply flatC_lt. constructor; assumption.
+  Qed.
+
+  Lemma attach_shape m own a : a_shape (attach_mask m own a) = a_shape a.
+  Proof. destruct m, own; reflexivity. Qed.
+  Lemma attach_data m own a : a_data (attach_mask m own a) = a_data a.
+  Proof. destruct m, own; reflexivity. Qed.
+
+  Lemma nth_map_in {X Y : Type} (f : X -> Y) l p dx dy : p < length l -> nth p (map f l) dy = f (nth p l dx).
+  Proof.
+    intros H. rewrite (nth_indep _ dy (f dx)) by (rewrite map_length; assumption). apply map_nth.
+  Qed.
+
+  Lemma nth_repeat_in {X : Type} (x d : X) n p : p < n -> nth p (repeat x n) d = x.
+  Proof.
+    intros H. rewrite (nth_indep _ d x) by (rewrite repeat_length; assumption). apply nth_repeat.
+  Qed.
+
+  Lemma lay_shape_form g sh f : has_form g sh f -> lay_shape g (form_layout g f) sh = form_k f :: cell g sh f.
+  Proof.
+    intros Hf. destruct g as [dsh|ds o]; destruct f; simpl in Hf; try contradiction; try reflexivity.
+    - destruct Hf as [c [-> _]]. reflexivity.
+    - subst sh. unfold form_layout. destruct (Nat.eqb (length ds) 1); reflexivity.
+    - subst sh. reflexivity.
+    - destruct Hf as [_ ->]. reflexivity.
+  Qed.
+
+  (** the array stored by [prepare] for a payload array [a] of an accepted form *)
+  Definition prepared (inf : info) (a : arr) (f : form) : arr :=
+    attach_mask (i_mask inf) (a_mask a) (apply_layout (i_grid inf) (form_layout (i_grid inf) f) a).
+
+  Lemma prepared_spec inf a f :
+    let g := i_grid inf in let sh := a_shape a in
+    wf_grid g -> wf_arr a -> has_form g sh f -> wf_mask inf (cell g sh f) -> mask_ok (i_mask inf) a = true ->
+    a_shape (prepared inf a f) = form_k f :: cell g sh f
+    /\ length (a_data (prepared inf a f)) = prod (form_k f :: cell g sh f)
+    /\ forall j idx, j < form_k f -> in_range idx (cell g sh f) ->
+         aget (prepared inf a f) (j :: idx) = nth (src_pos g f sh j idx) (a_data a) 0%Q
+         /\ mget (prepared inf a f) (j :: idx) = demanded_mask inf a f j idx.
+  Proof.
+    intros g sh; subst g sh; intros Hwf [Hlen Hmlen] Hf Hwm Hmok.
+    assert (a_shape (prepared inf a f) = form_k f :: cell (i_grid inf) (a_shape a) f) as Hshape.
+    { unfold prepared. rewrite attach_shape. simpl. apply lay_shape_form. exact Hf. }
+    split; [exact Hshape|]. split.
+    { rewrite <- Hshape. unfold prepared. rewrite attach_data, attach_shape. simpl.
+      apply layout_length; assumption. }
+    intros j idx Hj Hi.
+    destruct (@layout_elems Q (i_grid inf) (a_shape a) f (a_data a) 0%Q j idx Hwf Hf Hj Hi) as [_ Hq].
+    split.
+    - unfold aget. rewrite Hshape. unfold prepared. rewrite attach_data. simpl. exact Hq.
+    - unfold mget, demanded_mask. rewrite Hshape.
+      unfold prepared. destruct (a_mask a) as [m|] eqn:Em.
+      + (* a masked payload keeps its own mask *)
+        assert (a_mask (attach_mask (i_mask inf) (Some m) (apply_layout (i_grid inf) (form_layout (i_grid inf) f) a))
+                = Some (lay_list (i_grid inf) (form_layout (i_grid inf) f) m false)) as ->.
+        { destruct (i_mask inf); simpl; rewrite Em; reflexivity. }
+        simpl. f_equal.
+        destruct (@layout_elems bool (i_grid inf) (a_shape a) f m false j idx Hwf Hf Hj Hi) as [_ Hb]. exact Hb.
+      + destruct (i_mask inf) as [| |bits] eqn:Ei; simpl; try (rewrite Em; reflexivity).
+        f_equal. unfold wf_mask in Hwm. rewrite Ei in Hwm.
+        unfold mask_ok in Hmok. rewrite Em in Hmok.
+        pose proof (prod_form _ _ _ Hf) as Hp.
+        assert (flatC (cell (i_grid inf) (a_shape a) f) idx < prod (cell (i_grid inf) (a_shape a) f)) as Hlt by (apply flatC_lt; assumption).
+        destruct (Nat.eqb (length bits) 1) eqn:E1.
+        * apply Nat.eqb_eq in E1.
+          rewrite (lay_shape_form _ _ _ Hf).
+          rewrite nth_repeat_in by (simpl; nia).
+          assert (flatC (cell (i_grid inf) (a_shape a) f) idx = 0) as -> by lia.
+          destruct bits; [discriminate|reflexivity].
+        * simpl in Hmok. apply Nat.eqb_eq in Hmok. apply Nat.eqb_neq in E1.
+          assert (form_k f = 1) as Hk by nia.
+          assert (j = 0) as -> by lia. simpl. reflexivity.
+  Qed.
+End Payload.
+
+Section Delivery.
+  Open Scope nat_scope.
+
+  Lemma shape_phase_form inf a u b f :
+    wf_grid (i_grid inf) -> has_form (i_grid inf) (a_shape a) f -> mask_ok (i_mask inf) a = true ->
+    shape_phase inf a u b = POk (mkE (prepared inf a f) u b).
+  Proof.
+    intros Hwf Hf Hm. unfold shape_phase. rewrite Hm. simpl.
+    rewrite (form_accepted _ _ _ Hwf Hf). reflexivity.
+  Qed.
+
+  Lemma check_delivered_form g sh f : has_form g sh f -> check_delivered g (form_k f :: cell g sh f) = true.
+  Proof.
+    intros Hf. destruct g as [dsh|ds o]; simpl.
+    - destruct f; simpl in Hf; try contradiction.
+      + rewrite (shape_valid_length _ _ Hf). apply Nat.eqb_refl.
+      + destruct Hf as [c [-> Hc]]. simpl. rewrite (shape_valid_length _ _ Hc). apply Nat.eqb_refl.
+    - rewrite Nat.eqb_refl. simpl. apply list_eqb_nat_eq. reflexivity.
+  Qed.
+
+  Lemma aget_amap fq a i : flatC (a_shape a) i < length (a_data a) -> aget (amap fq a) i = fq (aget a i).
+  Proof. intros H. unfold aget, amap. simpl. apply nth_map_in. exact H. Qed.
+
+  (** [Input._convert_and_check] on a stored publication of shape [sh'] *)
+  Lemma deliver_spec g ui pa ue b sh' :
+    a_shape pa = sh' -> length (a_data pa) = prod sh' -> check_delivered g sh' = true ->
+    compatible ue ui = true ->
+    exists d, deliver g ui (mkE pa ue b) = RArr d ui /\ a_shape d = sh'
+      /\ forall i, in_range i sh' -> aget d i = delivered_val ue ui (aget pa i) /\ mget d i = mget pa i.
+  Proof.
+    intros Hs Hl Hc Hcomp. unfold deliver. simpl. rewrite Hcomp. simpl. unfold delivered_val.
+    destruct (equivalent ue ui).
+    - rewrite Hs, Hc. exists pa. repeat split; auto.
+    - simpl. rewrite Hs, Hc. exists (amap (convert ue ui) pa). split; [reflexivity|]. split; [exact Hs|].
+      intros i Hi. split; [|reflexivity]. apply aget_amap. rewrite Hs, Hl. apply flatC_lt. exact Hi.
+  Qed.
+
+  (** Every payload of the domain is accepted and delivered with shape [k :: cell]; element
+      [j, idx] is the published element that belongs there, relabelled / converted as the code
+      does it; the mask is the demanded one. *)
+  Theorem payload_accepted_raw inf ui p f :
+    wf_grid (i_grid inf) -> wf_arr (p_arr p) -> wf_mask inf (cell (i_grid inf) (a_shape (p_arr p)) f) ->
+    has_form (i_grid inf) (a_shape (p_arr p)) f -> units_ok inf p -> mask_ok (i_mask inf) (p_arr p) = true ->
+    compatible (i_units inf) ui = true ->
+    exists e d,
+      prepare inf p = POk e /\ deliver (i_grid inf) ui e = RArr d ui
+      /\ a_shape d = form_k f :: cell (i_grid inf) (a_shape (p_arr p)) f
+      /\ forall j idx, j < form_k f -> in_range idx (cell (i_grid inf) (a_shape (p_arr p)) f) ->
+           aget d (j :: idx)
+           = delivered_val (stored_units (i_units inf) (p_units p)) ui
+               (stored_val (i_units inf) (p_units p)
+                  (nth (src_pos (i_grid inf) f (a_shape (p_arr p)) j idx) (a_data (p_arr p)) 0%Q))
+           /\ mget d (j :: idx) = demanded_mask inf (p_arr p) f j idx.
+  Proof.
+    intros Hwf Hwa Hwm Hf Hu Hm Hc.
+    set (a := p_arr p) in *.
+    (* the array that goes through the shape phase: [a] itself or its converted copy *)
+    assert (forall fq ue b a1, a1 = a \/ a1 = amap fq a ->
+      compatible ue ui = true ->
+      exists d, deliver (i_grid inf) ui (mkE (prepared inf a1 f) ue b) = RArr d ui
+        /\ a_shape d = form_k f :: cell (i_grid inf) (a_shape a) f
+        /\ forall j idx, j < form_k f -> in_range idx (cell (i_grid inf) (a_shape a) f) ->
+             aget d (j :: idx) = delivered_val ue ui (nth (src_pos (i_grid inf) f (a_shape a) j idx) (a_data a1) 0%Q)
+             /\ mget d (j :: idx) = demanded_mask inf a f j idx) as Hgen.
+    { intros fq ue b a1 Ha1 Hcomp.
+      assert (a_shape a1 = a_shape a /\ a_mask a1 = a_mask a /\ wf_arr a1) as [Hs1 [Hm1 Hw1]].
+      { destruct Ha1 as [->| ->]; [auto|]. simpl. repeat split; try reflexivity.
+        - simpl. rewrite map_length. apply Hwa.
+        - simpl. apply Hwa. }
+      assert (mask_ok (i_mask inf) a1 = true) as Hmk1 by (unfold mask_ok; rewrite Hm1, Hs1; exact Hm).
+      destruct (prepared_spec inf a1 f) as [P1 [P2 P3]]; try (rewrite ?Hs1; assumption).
+      rewrite Hs1 in P1, P2, P3.
+      destruct (deliver_spec (i_grid inf) ui (prepared inf a1 f) ue b _ P1 P2 (check_delivered_form _ _ _ Hf) Hcomp)
+        as [d [D1 [D2 D3]]].
+      exists d. split; [exact D1|]. split; [exact D2|].
+      intros j idx Hj Hi. destruct (D3 (j :: idx)) as [D4 D5]; [constructor; assumption|].
+      destruct (P3 j idx Hj Hi) as [P4 P5]. rewrite D4, D5, P4, P5. split; [reflexivity|].
+      unfold demanded_mask. rewrite Hm1, Hs1. reflexivity. }
+    unfold prepare. fold a. unfold units_ok in Hu. unfold stored_units, stored_val.
+    destruct (p_units p) as [u|].
+    - rewrite Hu, Hm. simpl. destruct (equivalent u (i_units inf)) eqn:Ee.
+      + rewrite (shape_phase_form inf a u (p_buf p) f Hwf Hf Hm).
+        destruct (Hgen (fun x => x) u (p_buf p) a (or_introl eq_refl)) as [d Hd].
+        { eapply compatible_trans; eassumption. }
+        exists (mkE (prepared inf a f) u (p_buf p)), d. split; [reflexivity|]. exact Hd.
+      + set (a1 := amap (convert u (i_units inf)) a).
+        assert (mask_ok (i_mask inf) a1 = true) as Hm1 by exact Hm.
+        rewrite (shape_phase_form inf a1 (i_units inf) None f Hwf Hf Hm1).
+        destruct (Hgen (convert u (i_units inf)) (i_units inf) None a1 (or_intror eq_refl) Hc) as [d [D1 [D2 D3]]].
+        exists (mkE (prepared inf a1 f) (i_units inf) None), d. split; [reflexivity|]. split; [exact D1|]. split; [exact D2|].
+        intros j idx Hj Hi. destruct (D3 j idx Hj Hi) as [D4 D5]. split; [|exact D5].
+        rewrite D4. f_equal. unfold a1. simpl. apply nth_map_in.
+        destruct Hwa as [Hl _]. fold a in Hl. rewrite Hl. apply src_pos_lt; assumption.
+    - rewrite (shape_phase_form inf a (i_units inf) (p_buf p) f Hwf Hf Hm).
+      destruct (Hgen (fun x => x) (i_units inf) (p_buf p) a (or_introl eq_refl) Hc) as [d Hd].
+      exists (mkE (prepared inf a f) (i_units inf) (p_buf p)), d. split; [reflexivity|]. exact Hd.
+  Qed.
+
+  (** the same with the value stated as the affine conversion producer units -> consumer units *)
+  Theorem payload_accepted inf ui p f :
+    wf_grid (i_grid inf) -> wf_arr (p_arr p) -> wf_mask inf (cell (i_grid inf) (a_shape (p_arr p)) f) ->
+    has_form (i_grid inf) (a_shape (p_arr p)) f -> units_ok inf p -> mask_ok (i_mask inf) (p_arr p) = true ->
+    compatible (i_units inf) ui = true ->
+    unit_ok (i_units inf) -> unit_ok ui ->
+    relabel_safe (producer_units (i_units inf) (p_units p)) ui -> relabel_safe (i_units inf) ui ->
+    exists e d,
+      prepare inf p = POk e /\ deliver (i_grid inf) ui e = RArr d ui
+      /\ a_shape d = form_k f :: cell (i_grid inf) (a_shape (p_arr p)) f
+      /\ forall j idx, j < form_k f -> in_range idx (cell (i_grid inf) (a_shape (p_arr p)) f) ->
+           (aget d (j :: idx)
+            == convert (producer_units (i_units inf) (p_units p)) ui
+                 (nth (src_pos (i_grid inf) f (a_shape (p_arr p)) j idx) (a_data (p_arr p)) 0%Q))%Q
+           /\ mget d (j :: idx) = demanded_mask inf (p_arr p) f j idx.
+  Proof.
+    intros Hwf Hwa Hwm Hf Hu Hm Hc Ho Hi Hs1 Hs2.
+    destruct (payload_accepted_raw inf ui p f Hwf Hwa Hwm Hf Hu Hm Hc) as [e [d [H1 [H2 [H3 H4]]]]].
+    exists e, d. split; [exact H1|]. split; [exact H2|]. split; [exact H3|].
+    intros j idx Hj Hidx. destruct (H4 j idx Hj Hidx) as [H5 H6]. split; [|exact H6].
+    rewrite H5. apply link_conv; assumption.
+  Qed.
+
+  (** everything else is refused *)
+  Theorem payload_refused inf p :
+    wf_grid (i_grid inf) ->
+    (forall u, p_units p = Some u -> compatible u (i_units inf) = false -> prepare inf p = PErr EData)
+    /\ (units_ok inf p -> mask_ok (i_mask inf) (p_arr p) = false -> prepare inf p = PErr EMask)
+    /\ (units_ok inf p -> mask_ok (i_mask inf) (p_arr p) = true ->
+        (forall f, ~ has_form (i_grid inf) (a_shape (p_arr p)) f) -> prepare inf p = PErr EData).
+  Proof.
+    intros Hwf. split; [|split].
+    - intros u Hu Hc. unfold prepare. rewrite Hu, Hc. reflexivity.
+    - intros Hu Hm. unfold prepare, units_ok in *. destruct (p_units p) as [u|].
+      + rewrite Hu, Hm. reflexivity.
+      + unfold shape_phase. rewrite Hm. reflexivity.
+    - intros Hu Hm Hnf. unfold prepare, units_ok in *.
+      assert (check_shape (i_grid inf) (a_shape (p_arr p)) = None) as Hn.
+      { destruct (check_shape (i_grid inf) (a_shape (p_arr p))) as [lay|] eqn:E; [|reflexivity].
+        destruct (accepted_form _ _ _ Hwf E) as [f Hf]. exfalso. exact (Hnf f Hf). }
+      destruct (p_units p) as [u|].
+      + rewrite Hu, Hm. simpl. destruct (equivalent u (i_units inf)); unfold shape_phase.
+        * rewrite Hm, Hn. reflexivity.
+        * assert (mask_ok (i_mask inf) (amap (convert u (i_units inf)) (p_arr p)) = true) as -> by exact Hm.
+          simpl. rewrite Hn. reflexivity.
+      + unfold shape_phase. rewrite Hm, Hn. reflexivity.
+  Qed.
+End Delivery.
+
+Section LinkPull.
+  Open Scope Z_scope.
+
+  (** a pull over the link = [_convert_and_check] of the nearest publication *)
+  Theorem link_pull_nearest g ui (s : lstate) t :
+    increasing (st_hist s) ->
+    match st_hist s with
+    | [] => lpull g ui s t = (s, RNoData)
+    | (t0, _) :: r =>
+        (t < t0 \/ last_time t0 r < t -> lpull g ui s t = (s, RTime))
+        /\ (t0 <= t <= last_time t0 r ->
+            exists tp e, In (tp, e) (st_hist s) /\ snd (lpull g ui s t) = deliver g ui e
+              /\ forall x, In x (st_hist s) -> Z.abs (tp - t) <= Z.abs (fst x - t))
+    end.
+  Proof.
+    intros Hinc. pose proof (nearest (st_hist s) t Hinc) as H. unfold lpull, get_data.
+    destruct (st_hist s) as [|[t0 d0] r] eqn:Eh.
+    - rewrite H. reflexivity.
+    - destruct H as [H1 H2]. split.
+      + intros Ho. rewrite (H1 Ho). reflexivity.
+      + intros Hi. destruct (H2 Hi) as [tp [e [Hin [Hok Hmin]]]]. exists tp, e.
+        split; [exact Hin|]. rewrite Hok. simpl. split; [reflexivity|exact Hmin].
+  Qed.
+End LinkPull.
